@@ -176,7 +176,7 @@ type vInfo struct {
 	elems   []any // for slices: the elements, boxed, in order (nil when not checked element-wise)
 }
 
-const vCatalogueSize = 47
+const vCatalogueSize = 48
 
 // vAnyOf returns a value whose dynamic type is chosen (by forking) from the catalogue; scalar
 // contents are symbolic. The info says what the *documentation* promises about it.
@@ -282,8 +282,10 @@ func vAnyOf(label string) (any, vInfo) {
 		return NewResult([]int{vNondet[int](label + ".v"), 2}), vInfo{} // ... not a slice either
 	case 45:
 		return NewResult(vNondet[string](label + ".v")), vInfo{} // ... nor a string
-	default:
+	case 46:
 		return map[string]any(nil), vInfo{isMap: true} // a typed nil map: still a map[string]any
+	default:
+		return func(yield func(any) bool) { yield(1) }, vInfo{} // an iterator-shaped func: a func, not a slice
 	}
 }
 
